@@ -92,6 +92,16 @@ func gen(rng *rand.Rand, tier core.Tier, emit core.Emit) {
 		}
 		emit("hist", reputil.JoinOps(ops)...)
 	}
+	// … and the same while another update of the server commits between the report's read and its write: a storage error
+	// during the write must fail the report (the other update stands), never turn it into a blind overwrite
+	for k := 0; k < 8; k++ {
+		for _, ev := range []string{"yb", "ya"} {
+			for _, other := range []string{"@renew|00000009|1.1.1.1", fmt.Sprintf("@probe|1.1.1.1:10480|10480|1|0|2|ok:10484:%x:2", "p")} {
+				emit("ucf", fmt.Sprintf("report|1.1.1.1:10480|10481|00000009|%x|1", "old"),
+					fmt.Sprintf("report|1.1.1.1:10480|10481|00000001|%x|3,%s", "srv", other), fmt.Sprintf("c0,r1,%s0:%d,e", ev, k))
+			}
+		}
+	}
 	// a report whose storage fails at one command: "acknowledged ⇒ registered and bound" must survive every placement
 	for c := 0; c <= 4; c++ {
 		for k := 0; k < 11; k++ {
